@@ -1,5 +1,6 @@
 """C08 — match: grammar/handler exhaustiveness and order, result-variable discipline, capture registration, placement."""
 CANON = True
+STRICT = {"MATCH-RESULT-INIT"}
 
 import ast
 
@@ -101,13 +102,22 @@ def check(ctx, src):
     # --- compile_match_expression --------------------------------------------------------------
     m = comp.rm.func("compile_match_expression")
     ctx.require(m is not None, "compile_match_expression not found")
-    init = [st for st in m.body if isinstance(st, ast.AugAssign) and norm(st.target) == "ret" and isinstance(st.value, ast.Call) and dotted(st.value.func) == "asty.Assign"
-            and "targets=[return_var]" in norm(st.value) and "asty.Constant(expr, value=None)" in norm(st.value)]
-    mt = [st for st in m.body if isinstance(st, ast.AugAssign) and norm(st.target) == "ret" and isinstance(st.value, ast.Call) and dotted(st.value.func) == "asty.Match"]
-    ctx.need(len(mt) == 1, "compile_match_expression: the Match statement is not added at the top level of the function")
-    ctx.check(len(init) == 1 and m.body.index(init[0]) < m.body.index(mt[0]), "MATCH-RESULT", f"{R}|compile_match_expression|init-none",
-              "the result variable is not set to None unconditionally before the Match (when no case matches, the form must return None)", R, m.lineno,
-              witness="(match 5 None 1) raises NameError; (setv r 0) (setv r (match 5 None 1)) keeps 0", detail="ret += Assign(return_var, None) at top level before Match")
+    rvdef = pyq.contains(m, lambda n: isinstance(n, ast.Assign) and isinstance(n.targets[0], ast.Name) and isinstance(n.value, ast.Call) and dotted(n.value.func) == "asty.Name" and "get_anon_var" in norm(n.value))
+    ctx.need(rvdef is not None, "compile_match_expression: result variable not found")
+    rv = rvdef.targets[0].id
+
+    def assigns_rv(c):
+        return isinstance(c, ast.Call) and dotted(c.func) == "asty.Assign" and any(k.arg == "targets" and isinstance(k.value, ast.List) and len(k.value.elts) == 1 and isinstance(k.value.elts[0], ast.Name)
+                                                                                   and k.value.elts[0].id == rv for k in c.keywords)
+
+    inits = [c for c in ast.walk(m) if assigns_rv(c) and any(k.arg == "value" and isinstance(k.value, ast.Call) and dotted(k.value.func) == "asty.Constant"
+                                                             and any(kk.arg == "value" and isinstance(kk.value, ast.Constant) and kk.value.value is None for kk in k.value.keywords) for k in c.keywords)]
+    mt = [st for st in ast.walk(m) if isinstance(st, ast.Call) and dotted(st.func) == "asty.Match"]
+    ctx.need(len(mt) == 1, "compile_match_expression: the Match construction was not found")
+    uncond = [c for c in inits if not pyq.guards(c, m)]
+    ctx.decide("MATCH-RESULT", f"{R}|compile_match_expression|init-none", None if not inits else bool(uncond) and all((c.lineno, c.col_offset) < (mt[0].lineno, mt[0].col_offset) for c in uncond),
+               "the result variable is not set to None unconditionally before the Match (when no case matches, the form must return None)" + (f"; it is initialised only under `{[str(a) for a in pyq.atoms(inits[0], m)]}`" if inits and not uncond else ""), R, m.lineno,
+               witness="(match 5 None 1) raises NameError; (setv r 0) (setv r (match 5 None 1)) keeps 0", detail="ret += Assign(return_var, None) at top level before Match")
     subj = pyq.contains(mt[0], lambda x: isinstance(x, ast.keyword) and x.arg == "subject")
     ctx.check(subj is not None and norm(subj.value) == "subject.force_expr", "MATCH-RESULT", f"{R}|compile_match_expression|subject", "Match.subject is not the compiled subject", R, mt[0].lineno, detail="subject.force_expr")
     loop = next((st for st in m.body if isinstance(st, ast.For) and norm(st.iter) == "clauses"), None)
@@ -117,7 +127,7 @@ def check(ctx, src):
               "a case body no longer ends by storing its value in the result variable (unconditionally, as a direct statement of the clause loop)", R, loop.lineno,
               witness="(setv r (match v 1 (if a (do (f) 1) 2))) gives None", detail="body += Assign(return_var, body.force_expr)")
     lift = [st for st in m.body if isinstance(st, ast.For) and norm(st.iter) == "lifted_if_defs"]
-    ctx.check(len(lift) == 1 and m.body.index(lift[0]) < m.body.index(mt[0]), "MATCH-RESULT", f"{R}|compile_match_expression|guards-before-match",
+    ctx.check(len(lift) == 1 and lift[0].lineno < mt[0].lineno, "MATCH-RESULT", f"{R}|compile_match_expression|guards-before-match",
               "lifted guard functions are not emitted before the Match statement", R, m.lineno, witness="(match x 1 :if (do (f) True) 2) -> NameError for the guard function", detail="before Match")
     g = pyq.contains(loop, lambda x: isinstance(x, ast.Call) and dotted(x.func) == "ast.match_case")
     ctx.need(g is not None, "match_case construction not found")
